@@ -16,7 +16,7 @@ from ..pat import find_expr, find_stmt, match_expr, match_stmt
 from ..pm import src
 from ..q import FA, call_name, compare_parts, const, guard_facts, is_neg_inf, is_self_attr, mode_under, norm_args, walk_no_nested
 
-TECHNIQUE = "R-SIB: canonical-form comparison of the three shrinkage implementations, the final live-count schedules and the boundary constructions against the documented formulas; R-DEG: shift-degree type checking (abstract interpretation) of every expression in the integrator and weight functions; order-insensitive linear forms for the quadrature rules; R-ALIAS (fresh-object analysis of property getters paired with in-place consumers); function- and class-level R-NORM on the shrinkage option"
+TECHNIQUE = "R-SIB: canonical-form comparison of the three shrinkage implementations, the final live-count schedules and the boundary constructions against the documented formulas; R-DEG: shift-degree type checking (abstract interpretation) of every expression in the integrator and weight functions; order-insensitive linear forms for the quadrature rules; R-ALIAS (fresh-object analysis of property getters paired with in-place consumers); function- and class-level R-NORM on the shrinkage option; true-division rule for live counts"
 
 ST = "nessai.evidence:_NSIntegralState"
 EXPECTED = {"logt": "-(1 / n)", "t": "-log1p(1 / n)"}
@@ -319,7 +319,7 @@ def _returned_weight_terms(f, xname):
 
 
 CLAIM = {
-    "text": "Decides (a) that the three implementations of the expected shrinkage (incremental integrator, live-point volumes, one-pass weights) canonicalise, per mode, to the documented -1/n and -log1p(1/n), that the final live-count schedules denote nlive..1 in all three places, that both the incremental and the one-pass code build the same closed trapezoid (L ++ [L[-1]], X ++ [-inf], X0 = 0, L0 = -inf) and the rectangle weights L_i + log(X_{i-1}-X_i) - log Z, and that the trapezoid / logsubexp / rectangle-update expressions equal the documented forms as order-insensitive linear forms over canonical atoms; (b) by shift-degree type checking of every expression (~300) of the integrator and weight functions, that log Z has degree 1, volumes and weights degree 0, every store respects its field's degree, logaddexp/comparisons only combine equal degrees and no exp/log/log1p ever sees a value that moves with a likelihood offset - which is the exact-arithmetic offset clause and the necessary condition for the no-overflow clause. Values handed out by a property are modified in place (effective_n_posterior_samples normalises the weights in place) only because every getter of that name returns a fresh object on all paths (R-ALIAS). The expectation option is compared under one normalisation everywhere it is interpreted (C02.1: stored lower-cased if compared as stored; never both `.lower()`-ed and raw inside one function, helpers inlined).",
+    "text": "Decides (a) that the three implementations of the expected shrinkage (incremental integrator, live-point volumes, one-pass weights) canonicalise, per mode, to the documented -1/n and -log1p(1/n), that the final live-count schedules denote nlive..1 in all three places, that both the incremental and the one-pass code build the same closed trapezoid (L ++ [L[-1]], X ++ [-inf], X0 = 0, L0 = -inf) and the rectangle weights L_i + log(X_{i-1}-X_i) - log Z, and that the trapezoid / logsubexp / rectangle-update expressions equal the documented forms as order-insensitive linear forms over canonical atoms; (b) by shift-degree type checking of every expression (~300) of the integrator and weight functions, that log Z has degree 1, volumes and weights degree 0, every store respects its field's degree, logaddexp/comparisons only combine equal degrees and no exp/log/log1p ever sees a value that moves with a likelihood offset - which is the exact-arithmetic offset clause and the necessary condition for the no-overflow clause. Values handed out by a property are modified in place (effective_n_posterior_samples normalises the weights in place) only because every getter of that name returns a fresh object on all paths (R-ALIAS). The expectation option is compared under one normalisation everywhere it is interpreted (C02.1: stored lower-cased if compared as stored; never both `.lower()`-ed and raw inside one function, helpers inlined). Quotients of live counts are true divisions or carry a float dtype (C02.8: np.reciprocal / floor division of the integer schedule the integrator holds would zero every shrinkage).",
     "note": "Syntactic algebra and abstract interpretation only: agreement with an arbitrary-precision evaluation to floating-point accuracy, precision at extreme dynamic range and tie/-inf behaviour are not decided. The information estimate is typed TOP (its invariance rests on two coefficients summing to one) and is checked not to flow into the obligations.",
 }
 
